@@ -257,6 +257,14 @@ func (p *Parser) parseIndexExpression(left Expression) Expression {
 
 	p.nextToken()
 
+	if p.curToken.Type != IDENT {
+		// a dangling "." or "[" is not a path
+		msg := fmt.Sprintf("expected next token to be %s, got %s instead", IDENT, p.curToken.Type)
+		p.errors = append(p.errors, msg)
+
+		return nil
+	}
+
 	expression.Index = p.parseIdentifier()
 
 	if expression.Token.Type == DOT {
